@@ -84,9 +84,10 @@ theorem parse_total_false_before_fix_index2 :
 theorem parse_total_false_before_fix_type :
     parse false "<13>PEP".toList = .error .type := by decide +kernel
 
-/-- the multi-chain joiner never indexes past `connections`, given one flag per junction -/
-theorem serializeMulti_ok (plus : Plus) (as : List Annotation) (conns : List (Option Bool))
-    (h : as.length ≤ conns.length + 1) : ∃ t, serializeMulti plus as conns = .ok t := by
+/-- the multi-chain joiner never indexes past `connections`, given one flag per junction (whatever the crosslink
+joiner constant is) -/
+theorem serializeMulti_ok (xj : List Char) (plus : Plus) (as : List Annotation) (conns : List (Option Bool))
+    (h : as.length ≤ conns.length + 1) : ∃ t, serializeMultiWith xj plus as conns = .ok t := by
   induction as generalizing conns with
   | nil => exact ⟨_, rfl⟩
   | cons a rest ih =>
@@ -97,7 +98,7 @@ theorem serializeMulti_ok (plus : Plus) (as : List Annotation) (conns : List (Op
       | nil => simp at h
       | cons cn conns' =>
         obtain ⟨t, ht⟩ := ih conns' (by simp at h ⊢; omega)
-        exact ⟨serialize plus a ++ ((if cn = some true then ['\\', '\\'] else ['+']) ++ t), by simp [serializeMulti, ht]⟩
+        exact ⟨serialize plus a ++ ((if cn = some true then xj else ['+']) ++ t), by simp [serializeMultiWith, ht]⟩
 
 /-- **Whatever the parser accepts can be serialized** (either `include_plus`): `serialize` is a total function of the
 model for single annotations, and for multi-chain results the connection list the parser builds is long enough. -/
@@ -112,7 +113,7 @@ theorem serialize_total (fixed : Bool) (plus : Plus) (s : List Char) (p : Parsed
       split at h
       · cases h; exact ⟨_, rfl⟩
       · cases h
-        exact serializeMulti_ok _ _ _ (by simp; omega)
+        exact serializeMulti_ok _ _ _ _ (by simp; omega)
 
 example : serializeParsed (constPlus true) (.multi [{ seq := "PEP".toList }, { seq := "TIDE".toList, charge := some 2 }] [some false])
     = .ok "PEP+TIDE/2".toList := by decide +kernel
